@@ -133,7 +133,7 @@ def snapshot(w):
             hist.append([k, len(evs), sorted(mask(x) for x in evs), last])
         snap["hist"] = setlike(hist)
         snap["asl"] = hashlib.md5(dumps({k: dict(v) for k, v in eng.asl_store.items()}).encode()).hexdigest()
-    snap["workers"] = {n: wk.attempts for n, wk in w.workers.items()}
+    snap["workers"] = {n: [wk.attempts, [list(h[:4]) for h in wk.held]] for n, wk in w.workers.items()}
     snap["mon"] = [m.state() for m in w.monitors]
     return snap
 
